@@ -1,5 +1,5 @@
 """C08 Encoders emit only well-formed output - count bookkeeping, two-sided count checks, nesting guards."""
-from .. import frontend as F, ast as A, cfg as C, util as U, guards as G
+from .. import inline as I, frontend as F, ast as A, cfg as C, util as U, guards as G
 from . import c10, c06
 
 EXPLANATION = ('(R08.1) in the CBOR, MessagePack and UBJSON encoders every value-emitting visit_* reaches end_value() on every path that '
@@ -42,9 +42,10 @@ def run(chk, tier, only_rule=None):
                              'fails with too_few_items or accepts a wrong declared length' % (cls, fn['n']), {'function': fn['q']}, fn['q'])
             if fn['n'] in ('visit_end_array', 'visit_end_object'):
                 chk.analysed(fn)
-                g = C.CFG(fn['body'])
+                helper = lambda callee, call: not callee['n'].startswith('visit_') and callee['n'] != 'end_value'
                 few = many = False
-                for nd in g.rpo:
+                # the test may have been moved into a helper (called as a statement or inside a condition): every body of the closure is searched
+                for nd in (nd for b in I.closure_bodies(facts, fn, allow=helper) for nd in C.CFG(b).rpo):
                     if nd.kind != 'cond': continue
                     cmp_ = G.comparison(nd.ast)
                     if not cmp_: continue
